@@ -169,7 +169,7 @@ func c05History(seed int64, idx int, tier string) []seqrun.Step {
 		keys = append(keys, "b\xff\xfein")
 	}
 	p := seqrun.Profile{
-		Steps: tierN(tier, 36, 60), Keys: keys, Lens: []int{14, 14, 5000}, MaxOpen: 3, TxBias: 45,
+		Steps: tierN(tier, 36, 60), Keys: keys, Lens: []int{14, 14, 5000, 0}, MaxOpen: 3, TxBias: 45,
 		TagPrefix: fmt.Sprintf("h%d-", idx),
 		W:         map[string]int{"begin": 8, "set": 30, "delete": 6, "commit": 8, "rollback": 3, "reopen": 4, "collect": 2, "drain": 1, "create": 3, "setreader": 3, "emptykey": 3, "faultwrite": 2},
 	}
